@@ -8,6 +8,14 @@
 // 4, 5 and 12 are the status triple of the stepped actor as observed after the event (filled in after
 // execution, recomputed on replay): the model uses them to learn which ready select case Go took.
 //
+// Context flavours: the n-th awaiter of a history (events 4 and 8 together, counted from 0) gets the context
+// hctx.Flavour(n): n%4 = 0, 2 plain WithCancel; 1 ends like a deadline (Err() == DeadlineExceeded); 3 cancelled with a
+// cause (Err() == Canceled, Cause == hctx.ErrCause).  The flavour is not part of the event: every await of Promise and
+// PromiseContainer returns the literal context.Canceled for a context that ended, whatever its flavour, so the model
+// needs no flavour; a replay reproduces it from the event list.  Error codes in observations: 0 nil, 1 context.Canceled
+// (the identical value), 2 context.DeadlineExceeded, 3+i other error i, 98 hctx.ErrCause, 99 any other error.  An await
+// that hands its caller the context's own error or cause shows up as (0, 2) / (0, 98): clauses 2 / 3.
+//
 // "Blocks without consuming CPU": a container awaiter that passes its HoldLock entry gate more than
 // spinLimit times while it is the only thing that runs is reported with status 7 (spinning); a goroutine
 // that spins without passing a gate trips the wall-clock watchdog (exit 3, last history on disk).
@@ -27,6 +35,7 @@ import (
 	"github.com/aperturerobotics/util/broadcast"
 	"github.com/aperturerobotics/util/promise"
 	"verif/harness/ctl"
+	"verif/harness/hctx"
 	"verif/harness/hist"
 )
 
@@ -62,6 +71,8 @@ func errCode(e error) uint64 {
 		return 1
 	case context.DeadlineExceeded:
 		return 2
+	case hctx.ErrCause:
+		return 98
 	}
 	for i, o := range errOther {
 		if e == o {
@@ -74,7 +85,8 @@ func errCode(e error) uint64 {
 type adata struct {
 	k         int // await kind 0 Await, 1 AwaitWithErrCh, 2 AwaitWithCancelCh
 	prom      int // target promise (SetResult, direct await), installed promise (container set; -1 nil)
-	cancel    context.CancelFunc
+	cancel    func() // ends the context the way its flavour prescribes
+	flav      int    // 0 plain WithCancel, 1 deadline-like, 2 cancelled with a cause
 	cancelled bool
 	errCh     chan error
 	cancelCh  chan struct{}
@@ -103,7 +115,10 @@ type sys struct {
 	soloActor   int
 	soloEntries int
 	setGen      int // number of container SetPromise / SetResult sections so far
+	nawait      int // awaiters created so far (events 4 and 8): picks the context flavour of the next one
 }
+
+var flavName = [3]string{"plain", "deadline", "cause"}
 
 func newSys(w *hist.W, hx bool) *sys {
 	s := &sys{c: ctl.New(), w: w, hx: hx, cur: -1, soloActor: -1, cont: promise.NewPromiseContainer[int]()}
@@ -184,9 +199,9 @@ func (s *sys) status() []uint64 {
 }
 
 // mkAwaiter prepares context and channel of an awaiter (pre-cancelled / pre-fired if asked).
-func mkAwaiter(k int, ctxc, ch uint64) (context.Context, *adata, bool) {
-	ctx, cancel := context.WithCancel(context.Background())
-	d := &adata{k: k, cancel: cancel, secCur: -2, prom: -1}
+func mkAwaiter(n int, k int, ctxc, ch uint64) (context.Context, *adata, bool) {
+	ctx, cancel, flav := hctx.Flavour(context.Background(), n)
+	d := &adata{k: k, cancel: cancel, flav: flav, secCur: -2, prom: -1}
 	if ctxc == 1 {
 		cancel()
 		d.cancelled = true
@@ -281,10 +296,11 @@ func (s *sys) exec(ev []uint64) (out []uint64, obs []uint64, ok bool) {
 		if p >= len(s.proms) || s.proms[p] == nil {
 			return nil, nil, false
 		}
-		ctx, d, good := mkAwaiter(k, arg(3), arg(4))
+		ctx, d, good := mkAwaiter(s.nawait, k, arg(3), arg(4))
 		if !good {
 			return nil, nil, false
 		}
+		s.nawait++
 		d.prom = p
 		a := s.c.NewActor(kAwait)
 		a.Data = d
@@ -422,10 +438,11 @@ func (s *sys) exec(ev []uint64) (out []uint64, obs []uint64, ok bool) {
 		out = []uint64{7, arg(1), c}
 	case 8:
 		k := int(arg(1))
-		ctx, d, good := mkAwaiter(k, arg(2), arg(3))
+		ctx, d, good := mkAwaiter(s.nawait, k, arg(2), arg(3))
 		if !good {
 			return nil, nil, false
 		}
+		s.nawait++
 		a := s.c.NewActor(kCAwait)
 		a.Data = d
 		s.c.Go(a, func(a *ctl.Actor) {
@@ -648,6 +665,25 @@ func (s *sys) count(ev, obs []uint64, prev []uint64) {
 	names := map[uint64]string{1: "newpromise", 2: "newpromise_with_result", 3: "setresult", 4: "await", 5: "step", 6: "cancel",
 		7: "fire", 8: "c_await", 9: "c_setpromise", 10: "c_setresult", 11: "c_getpromise", 12: "step_exit"}
 	s.w.Count("ev."+names[ev[0]], 1)
+	switch ev[0] {
+	case 4, 8:
+		d := s.c.Acts[len(s.c.Acts)-1].Data.(*adata)
+		s.w.Count("ev."+names[ev[0]]+".flavour."+flavName[d.flav], 1)
+		if d.cancelled {
+			s.w.Count("ev."+names[ev[0]]+".precancelled.flavour."+flavName[d.flav], 1)
+		}
+	case 6:
+		a := s.c.Acts[ev[1]]
+		what := "direct"
+		if a.Kind == kCAwait {
+			what = "container"
+		}
+		state := "parked"
+		if 3*int(ev[1]) < len(prev) && prev[3*ev[1]] == 2 {
+			state = "blocked"
+		}
+		s.w.Count("ev.cancel."+what+"."+state+".flavour."+flavName[a.Data.(*adata).flav], 1)
+	}
 	quiet, nb := true, 0
 	for i := 0; i+2 < len(obs); i += 3 {
 		switch obs[i] {
@@ -679,9 +715,23 @@ func (s *sys) count(ev, obs []uint64, prev []uint64) {
 			s.w.Count("sit.await_returned", 1)
 			if d.cancelled && d.err == context.Canceled {
 				s.w.Count("sit.await_returned_ctx", 1)
+				s.w.Count(fmt.Sprintf("sit.await_returned_ctx.kind%d.flavour.%s", d.k, flavName[d.flav]), 1)
+			}
+			if d.err == context.DeadlineExceeded && d.cancelled && d.flav == 1 {
+				// only legitimate as the promise's own result
+				s.w.Count("sit.await_of_ended_deadline_ctx_returned_deadline_exceeded", 1)
 			}
 		case obs[i] == 4 && a.Kind == kCAwait:
 			s.w.Count("sit.c_await_returned", 1)
+			if d.cancelled && d.err == context.Canceled {
+				where := "past_section"
+				if d.secCur == -1 {
+					where = "nil_promise"
+				} else if d.secCur == -2 {
+					where = "before_section"
+				}
+				s.w.Count(fmt.Sprintf("sit.c_await_returned_ctx.kind%d.%s.flavour.%s", d.k, where, flavName[d.flav]), 1)
+			}
 			if !d.cancelled && d.err == context.Canceled && !d.fired {
 				s.w.Count("sit.c_await_returned_canceled_result_live_ctx", 1)
 			}
